@@ -4,14 +4,15 @@
 id=$1; wt=/tmp/seed-$id; out=/tmp/seed-$id-out; log=$out/confirm.log
 export CARGO_TARGET_DIR=$wt/target CARGO_NET_OFFLINE=true RUST_LOG=off
 cd $wt || exit 2
+git diff > $out/current.diff; if ! diff -q $out/current.diff $out/patch.diff > /dev/null; then echo "WORKTREE DIFF != patch.diff" > $log; cat $log; exit 3; fi
 echo "== diff stat" > $log; git diff --stat >> $log
 echo "== build+tests with change" >> $log
 ( cargo test --offline --workspace --no-fail-fast 2>&1 | grep -E "^test result|FAILED|failed|panicked|error(\[|:)" | head -40 ) >> $log
 echo "== demo with change (expect non-zero)" >> $log
 bash $out/run_demo.sh $wt > $out/demo_with.log 2>&1; echo "rc_with=$?" >> $log
-git stash -q
+git apply -R $out/patch.diff   # (never `git stash`: the stash stack is shared by all worktrees of /repo)
 echo "== demo without change (expect 0)" >> $log
 bash $out/run_demo.sh $wt > $out/demo_without.log 2>&1; echo "rc_without=$?" >> $log
-git stash pop -q
+git apply $out/patch.diff
 echo "== done" >> $log
 cat $log
